@@ -10,6 +10,7 @@ CONSTANTS
   WithAux = FALSE
   MinCalls = 0
   WithAsm = TRUE
+  WithRefusals = FALSE
 INVARIANTS WellFormedInv IndexExactInv ContentInv CrcInv StatsInv
 PROPERTY Monotone
 CHECK_DEADLOCK FALSE
